@@ -61,8 +61,11 @@ def run_harnesses(names, repo, tier, timeout=None):
                 shutil.copy2(src, dst)
         shutil.copy(os.path.join(VERIF, 'kani', 'harness.rs'), os.path.join(scratch, 'src', 'verif_kani.rs'))
         shutil.copy(os.path.join(VERIF, 'kani', 'harness_request.rs'), os.path.join(scratch, 'src', 'verif_kani_request.rs'))
-        with open(os.path.join(scratch, 'src', 'lib.rs'), 'a') as f:
-            f.write('\n#[cfg(kani)]\nmod verif_kani;\n')
+        lib = os.path.join(scratch, 'src', 'lib.rs')
+        with open(lib) as f:
+            lib_text = f.read()
+        with open(lib, 'w') as f:
+            f.write('#![cfg_attr(kani, feature(variant_count))]\n' + lib_text + '\n#[cfg(kani)]\nmod verif_kani;\n')
         with open(os.path.join(scratch, 'src', 'request.rs'), 'a') as f:
             f.write('\n#[cfg(kani)]\n#[path = "verif_kani_request.rs"]\nmod verif_kani_request;\n')
         cmd = ['cargo', 'kani', '-j', '8', '--output-format', 'terse']
